@@ -815,11 +815,176 @@ def regex_probe(h, repo):
     return {"reproduced": False, "note": f"the compiled pattern hangs on {len(text)} characters, but no extractor / function of {modname} was driven into it"}
 
 
+# ------------------------------------------------------------------ e-mail attachments --
+def _mime_spellings(table):
+    """declared types in every spelling a writer may use for a type of the table (RFC 2045: names are case-insensitive and may
+    be followed by parameters), plus types the table does not hold"""
+    keys = list(table)
+    picks = keys[:3] + [k for k in keys if k in ("application/pdf", "text/plain", "text/html", "application/zip", "message/rfc822")]
+    seen, out = set(), []
+    for k in picks:
+        main, _, sub = k.partition("/")
+        for v in (k, k.upper(), k.title(), main.capitalize() + "/" + sub.upper(), k + "; name=report", k + ";", " " + k, k + " ", "\t" + k + "\r\n",
+                  k + "; charset=utf-8", k.upper() + "; NAME=X", k + "\x00", k.replace("/", " / ")):
+            if v not in seen:
+                seen.add(v)
+                out.append(v)
+    for v in ("application/x-unknown", "application/octet-stream", "", "/", "application", "APPLICATION/OCTET-STREAM", "text", ";", "a/b;c=d"):
+        if v not in seen:
+            seen.add(v)
+            out.append(v)
+    return out
+
+
+ATT_NAMES = ("noext", "sample_pdf", "", "a.bin", "a.pdf", "A.PDF", "a.", ".pdf", "archive.tar.gz", "x.unknownext", "a b", "café", "a.txt")
+
+
+def _consume_attachments(mail, ExtractionError, budget=20):
+    """-> None | description of what escaped"""
+    signal.alarm(budget)
+    try:
+        for _ in mail.iterate_supported_attachments():
+            pass
+    except ExtractionError:
+        return None
+    except _Timeout:
+        return "no result within %d s" % budget
+    except Exception as e:  # noqa
+        return f"{type(e).__name__}: {str(e)[:120]}"
+    finally:
+        signal.alarm(0)
+    return None
+
+
+def _msg_variants(repo, table):
+    """Outlook .msg fixtures with an attachment: the declared MIME type (PR_ATTACH_MIME_TAG, UTF-16) respelled in place at the same
+    length (case changes, a blank / `;` over the last characters), the attachment's file names with and without their extension dot"""
+    for f in sorted(glob.glob(os.path.join(repo, "sharepoint2text/tests/resources/*/*.msg"))):
+        raw = open(f, "rb").read()
+        u16 = lambda t: t.encode("utf-16-le")
+        mimes = [k for k in table if raw.count(u16(k + "\x00"))]
+        import re as _re
+        names = sorted({m.group(0).decode("utf-16-le") for m in _re.finditer(rb"(?:[A-Za-z0-9_\-]\x00){2,24}\.\x00(?:[A-Za-z0-9]\x00){2,4}(?=\x00\x00)", raw)})
+        try:
+            from sharepoint2text.parsing import router as _router
+            exts = {str(k).lower() for k in _router._EXTRACTOR_REGISTRY}
+        except Exception:  # noqa
+            exts = {"pdf", "docx", "pptx", "xlsx", "txt", "doc", "xls", "ppt"}
+        names = [n for n in names if n.rsplit(".", 1)[-1].lower() in exts][:6]      # attachment file names, not message classes / host names
+        for k in mimes:
+            main, _, sub = k.partition("/")
+            spell = [k.upper(), k.title(), main.capitalize() + "/" + sub.upper(), k[:-1] + ";", k[:-1] + " ", " " + k[:-1], k[:-2] + "; ", k]
+            for sp in spell:
+                for strip_ext in (True, False):
+                    data = raw.replace(u16(k + "\x00"), u16(sp + "\x00"))
+                    if strip_ext:
+                        for nm in names:
+                            data = data.replace(u16(nm), u16(nm.replace(".", "_")))
+                    yield f"{os.path.basename(f)}: PR_ATTACH_MIME_TAG {k!r} -> {sp!r}" + ("; attachment names " + ", ".join(repr(n) + " -> " + repr(n.replace('.', '_')) for n in names) if strip_ext and names else ""), data
+
+
+def _eml_variants(table):
+    head = b"From: a@example.com\nTo: b@example.com\nDate: Sat, 27 Dec 2025 10:00:00 +0000\nMessage-ID: <1@example.com>\nSubject: s\nMIME-Version: 1.0\n"
+    for sp in _mime_spellings(table):
+        if any(ord(ch) < 32 for ch in sp):
+            continue
+        for nm in ATT_NAMES[:6]:
+            disp = (b"Content-Disposition: attachment; filename=\"" + nm.encode("utf-8") + b"\"\n") if nm else b"Content-Disposition: attachment\n"
+            part = (b"--B\nContent-Type: text/plain\n\nhello\n--B\nContent-Type: " + sp.encode("utf-8") + b"\n" + disp +
+                    b"Content-Transfer-Encoding: base64\n\naGVsbG8gd29ybGQ=\n--B--\n")
+            yield f"eml: attachment declared {sp!r}, file name {nm!r}", head + b"Content-Type: multipart/mixed; boundary=\"B\"\n\n" + part
+
+
+def attachment_probe(repo):
+    """Attachments through the real code: (1) .msg fixtures and synthetic .eml messages whose attachment declares its type in
+    non-canonical spellings / has a file name without a usable extension -> extract -> consume iterate_supported_attachments();
+    (2) function level: EmailContent with records built exactly as the extractors build them (flag = the real
+    is_supported_mime_type(type)) over spellings x file names x payloads.  Only the ExtractionError family may escape."""
+    import importlib
+    import dataclasses
+    from sharepoint2text.parsing.exceptions import ExtractionError
+    try:
+        from sharepoint2text.parsing import mime_types
+        table = dict(mime_types.MIME_TYPE_MAPPING)
+    except Exception:  # noqa
+        mime_types, table = None, {"application/pdf": "pdf", "text/plain": "txt"}
+    signal.signal(signal.SIGALRM, _alarm)
+    tried = 0
+    readers = []
+    for modname, fn, gen in (("sharepoint2text.parsing.extractors.mail.msg_email_extractor", "read_msg_format_mail", lambda: _msg_variants(repo, table)),
+                             ("sharepoint2text.parsing.extractors.mail.eml_email_extractor", "read_eml_format_mail", lambda: _eml_variants(table))):
+        try:
+            readers.append((getattr(importlib.import_module(modname), fn), gen))
+        except Exception:  # noqa
+            continue
+    for f, gen in readers:
+        try:
+            for label, data in gen():
+                tried += 1
+                signal.alarm(20)
+                try:
+                    mails = list(f(io.BytesIO(data), "m." + ("msg" if "msg" in f.__name__ else "eml")))
+                except ExtractionError:
+                    continue
+                except _Timeout:
+                    return {"reproduced": True, "target": f.__name__, "inputs": {"case": label}, "expected": "terminates", "observed": "no result within 20 s"}, tried
+                except Exception as e:  # noqa
+                    return {"reproduced": True, "target": f"{f.__module__}.{f.__name__}", "inputs": {"case": label, "bytes_hex_prefix": data[:64].hex()},
+                            "expected": "ExtractionError family", "observed": f"{type(e).__name__}: {str(e)[:120]}"}, tried
+                finally:
+                    signal.alarm(0)
+                for m in mails:
+                    if not hasattr(m, "iterate_supported_attachments"):
+                        continue
+                    esc = _consume_attachments(m, ExtractionError)
+                    if esc:
+                        atts = [(getattr(a, "filename", None), getattr(a, "mime_type", None), getattr(a, "is_supported_mime_type", None)) for a in getattr(m, "attachments", [])]
+                        return {"reproduced": True, "target": f"{f.__module__}.{f.__name__} -> EmailContent.iterate_supported_attachments",
+                                "inputs": {"case": label, "size": len(data), "attachments (filename, mime_type, is_supported_mime_type)": atts},
+                                "expected": "attachment results, a skipped attachment, or the ExtractionError family", "observed": esc}, tried
+        except Exception:  # noqa  (a generator that cannot build its documents: next family)
+            continue
+    # (2) records as the extractors build them
+    try:
+        dt = importlib.import_module("sharepoint2text.parsing.extractors.data_types")
+        flag_fn = getattr(mime_types, "is_supported_mime_type")
+        EA, EC = dt.EmailAttachment, dt.EmailContent
+        ec_req = {f_.name for f_ in dataclasses.fields(EC) if f_.default is dataclasses.MISSING and f_.default_factory is dataclasses.MISSING}
+        payloads = [b"", b"garbage \x00\xff" * 8, b"%PDF-1.4\n%%EOF\n", b"hello"]
+        for sp in _mime_spellings(table) + [None]:
+            for nm in ATT_NAMES:
+                for pl in payloads[:2] if sp is None else payloads:
+                    tried += 1
+                    try:
+                        flag = flag_fn(sp)
+                    except Exception:  # noqa  (raised inside the extractors' own try: not this route)
+                        continue
+                    att = EA(filename=nm, mime_type=sp, data=io.BytesIO(pl), is_supported_mime_type=flag)
+                    kw = {"attachments": [att]}
+                    if "from_email" in ec_req:
+                        kw["from_email"] = dt.EmailAddress()
+                    mail = EC(**kw)
+                    esc = _consume_attachments(mail, ExtractionError)
+                    if esc:
+                        return {"reproduced": True, "target": "EmailContent.iterate_supported_attachments (records built as the mail extractors build them)",
+                                "inputs": {"filename": nm, "mime_type": sp, "is_supported_mime_type": f"is_supported_mime_type({sp!r}) == {flag!r}", "data_hex": pl[:32].hex()},
+                                "expected": "attachment results, a skipped attachment, or the ExtractionError family", "observed": esc}, tried
+    except Exception as e:  # noqa
+        return None, tried
+    return None, tried
+
+
+
 def find(req):
     repo = os.environ.get("VERIF_REPO", "/repo")
     hint = req.get("extra") or {}
     if isinstance(hint, dict) and hint.get("family") == "regex":
         return regex_probe(hint, repo)
+    if (isinstance(hint, dict) and hint.get("family") == "attachments") or any(w in (req.get("obligation") or "") for w in ("EmailAttachment", "iterate_supported_attachments", "is_supported_mime_type")):
+        r, n_att = attachment_probe(repo)
+        if r is not None:
+            return r
+        return {"reproduced": False, "note": f"{n_att} attachment cases (msg / eml documents, records built as the extractors build them): only the ExtractionError family escaped"}
     if "/decreases#regex-" in (req.get("obligation") or ""):
         return {"reproduced": False, "note": "no pumping text (pattern not read by the static analysis)"}
     if "/decreases#" in (req.get("obligation") or ""):
